@@ -15,6 +15,13 @@ RULE = ('each evaluation is one operation in a history of (sample-at L) (L incre
 def gen_case(rng, cid):
     n = rng.randrange(2, 9)
     text, info = gen.simple_trace(rng, n=n, scopes={'top': ['clk', 'a', 'b']})
+    if rng.random() < 0.35 and n >= 3:
+        # two samples with the same timestamp are still two indices (a VCD repeating a #t line)
+        k = rng.randrange(1, n - 1)
+        old, new = '#%d\n' % info['ts'][k + 1], '#%d\n' % info['ts'][k]
+        if text.count(old) == 1:
+            text = text.replace(old, new)
+            info['ts'][k + 1] = info['ts'][k]
     A, B, CLK, TS = info['signals']['top.a'], info['signals']['top.b'], info['signals']['top.clk'], info['ts']
     cmds = [['file', 't.vcd', text], ['load', 't.vcd', 'DEFAULT'],
             ['evalstr', '111', '(defsig vn (+ (reval top.a 1) top.b))'], ['evalstr', '111', '(defsig vd (* 2 top.a))']]
@@ -30,6 +37,7 @@ def gen_case(rng, cid):
         return A[M[j + 1]] + B[M[j]]
 
     trimmed = [False]
+    last_sample = [None]
 
     def observe():
         j = idx
@@ -47,7 +55,20 @@ def gen_case(rng, cid):
     observe()
     ops.append('observe')
     for _ in range(rng.randrange(3, 9)):
-        kind = rng.choice(['sample', 'sample', 'samplefind', 'trim', 'nav', 'nav', 'read'])
+        kind = rng.choice(['sample', 'sample', 'samplefind', 'trim', 'nav', 'nav', 'read', 'sameagain'])
+        if kind == 'sameagain' and last_sample[0] is not None:
+            # the same sample-at once more (after whatever navigation happened): everything as after the first one
+            txt, L = last_sample[0]
+            M = list(dict.fromkeys(L))
+            idx = 0
+            trimmed[0] = False
+            cmds.append(['evalstr', '111', txt])
+            expect.append('ok N')
+            ops.append('sample again ' + txt)
+            observe()
+            continue
+        if kind == 'sameagain':
+            kind = 'nav'
         if kind == 'sample':
             style = rng.choice(['inc', 'rep', 'single', 'full', 'shuffle'])
             if style == 'inc':
@@ -69,6 +90,7 @@ def gen_case(rng, cid):
                 nontrivial = True
             cmds.append(['evalstr', '111', txt])
             expect.append('ok N')
+            last_sample[0] = (txt, L)
         elif kind == 'samplefind':
             # indices produced by find are positions of the current (possibly resampled) trace and are read as original indices
             f = [k for k in range(idx, len(M)) if CLK[M[k]] == 1]
